@@ -25,6 +25,7 @@ BAG = {
     "stallseq": '<<"join","join","reg","sub","call","stall","pub","pub","ckill","call","msess","adv","resume","yield","pub","cancel","adv","leave">>',
     # a caller stops reading, its callee yields (held back in the retry loop), ...
     "retryseq": '<<"join","join","reg","call","stallc","yield","yield","yield","pub","msess","adv","resume","call","yield","leave">>',
+    "pci": '<<"join","join","reg","reg","pcall","pcall","pcall","pcall","yield","yield","inverr","cancel","call","leave","adv">>',
     "killx": '<<"join","join","sub","wsub","tst","tst","kill","kill","kill","leave","msess","pub">>',
     "stallburst": '<<"join","join","sub","sub","sub","stall","bpub","bpub","bpub","resume","pub","leave">>',
     "burst": '<<"join","join","sub","sub","sub","reg","pub","bpub","bpub","bpub","leave","bmix">>',
@@ -51,14 +52,16 @@ PROPS = {
                         quick=dict(steps=5, nsess=2), thorough=dict(steps=6, nsess=3)),
                 gen=[dict(bag="rpc", depth=18, quick=120, thorough=2500),
                      dict(bag="cancel", depth=18, quick=80, thorough=1500),
-                     dict(bag="killrpc", depth=16, quick=80, thorough=1500)],
+                     dict(bag="killrpc", depth=16, quick=80, thorough=1500),
+                     dict(bag="pci", depth=18, quick=100, thorough=2000)],
                 classes=["rpcreply"]),
     "C03": dict(family="core",
                 mc=dict(kinds=MC_RPC_KINDS,
                         inv=["TablesOK", "C03_FreshInvocationIds", "C03_RegView", "C03_Routing", "C03_NoInvocationOtherwise"],
                         quick=dict(steps=5, nsess=2), thorough=dict(steps=6, nsess=3)),
-                gen=[dict(bag="rpc", depth=18, quick=150, thorough=3000),
-                     dict(bag="shared", depth=20, quick=120, thorough=2000)],
+                gen=[dict(bag="rpc", depth=18, quick=120, thorough=3000),
+                     dict(bag="shared", depth=20, quick=100, thorough=2000),
+                     dict(bag="pci", depth=18, quick=120, thorough=2000)],
                 classes=["rpcroute", "rpcreply"]),
     "C05": dict(family="core",
                 mc=dict(kinds=["join", "sub", "pub", "reg", "call", "cancel", "yield", "leave", "adv"],
@@ -67,7 +70,8 @@ PROPS = {
                 gen=[dict(bag="churn", depth=18, quick=120, thorough=2500),
                      dict(bag="mixed", depth=20, quick=60, thorough=1500),
                      dict(bag="kill", depth=18, quick=60, thorough=1500),
-                     dict(bag="tst", depth=18, quick=50, thorough=1000)],
+                     dict(bag="tst", depth=18, quick=50, thorough=1000),
+                     dict(bag="pci", depth=16, quick=60, thorough=1000)],
                 classes=["sess", "pubsub", "meta", "rpcreply", "rpcroute", "rpcintr", "snap"]),
     "C18": dict(family="core",
                 mc=dict(kinds=["join", "wsub", "sub", "reg", "kill", "tst", "leave"],
